@@ -11,7 +11,7 @@ for d in /verif/seeded/*/; do
   cd /repo && git apply $d/patch.diff 2>/dev/null || { echo "$id: patch does not apply"; continue; }
   verdict=MISSED
   for c in $checks; do
-    if (cd /verif && VERIF_SHRINK_S=1 ./check run $c --tier quick 2>&1 | grep -q "^VIOLATION"); then verdict="caught($c)"; break; fi
+    if (cd /verif && VERIF_SHRINK_S=1 ./check run $c --tier quick 2>&1 | grep -a -q "^VIOLATION"); then verdict="caught($c)"; break; fi
   done
   cd /repo && git checkout -- . && git clean -fdq
   n=$((n+1)); [ "$verdict" = MISSED ] && missed=$((missed+1))
